@@ -17,6 +17,7 @@ from typing import Any, Optional
 
 from .. import core, gen, history as hist, observers as ob, oracles, user
 from . import _idx
+from .c05 import zid_insertion_problem
 
 ID = "C11"
 LEVEL = "exploration"
@@ -187,9 +188,9 @@ def check_after(sim: core.Sim, before_files: dict, model: dict, rec: hist.Rec, s
                 else:
                     rec.probe("stamp-inserted")
             elif key in new:
-                m = re.search(r"(?<![^ ])(\d{6}#[0-9A-Za-z]{2,3}) ", y)
-                if not m or (y[: m.start(1)] + y[m.end(0) :]) != _drop_long(x):
-                    return hist.viol("new-note-line-rewrite-wrong", "+".join(sorted(oracles.first_line_shape(x))), step=step, page=rel, line=i + 1, before=x, after=y)
+                clause, _info = zid_insertion_problem(x, y)
+                if clause:
+                    return hist.viol("new-note-line-rewrite-wrong", clause + "|" + "+".join(sorted(oracles.first_line_shape(x))), step=step, page=rel, line=i + 1, before=x, after=y)
                 rec.probe("zid-added-during-reindex")
             else:
                 cur = model["cf"]["notes"].get(key)
